@@ -201,7 +201,11 @@ def label_rows(modname, fn):
                 if isinstance(t, ast.Subscript) and isinstance(t.value, ast.Name) and t.value.id == "Lab":
                     if isinstance(n, ast.AugAssign):
                         raise Unsupported(f"{modname}.{fn.name}: augmented store into Lab")
-                    rows.append((f"{modname}.{fn.name}", "store", val(n.value)))
+                    # `Lab[..] = a if test else b` stores one of the two literals (either may be stored): two rows, in the
+                    # order (a, b) — the same facts as `if test: Lab[..] = a / else: Lab[..] = b`
+                    vals = [n.value.body, n.value.orelse] if isinstance(n.value, ast.IfExp) else [n.value]
+                    for v_ in vals:
+                        rows.append((f"{modname}.{fn.name}", "store", val(v_)))
     return rows
 
 
